@@ -41,7 +41,7 @@ func (x *Exec) registerAxioms() error {
 				collectSymbols(text, used)
 				var trig []string
 				for s := range used {
-					if strings.HasPrefix(s, "|ghost ") {
+					if strings.HasPrefix(s, "|ghost ") || strings.HasPrefix(s, "|G ") {
 						trig = append(trig, s)
 					}
 				}
@@ -122,6 +122,9 @@ func (x *Exec) tableChecks(plan *Plan, only *regexp.Regexp) {
 
 func (x *Exec) extraChecks(plan *Plan, only *regexp.Regexp) {
 	x.tableChecks(plan, only)
+	if only == nil {
+		x.immutableFieldChecks()
+	}
 	for _, name := range plan.Lemmas {
 		if only != nil && !only.MatchString(name) {
 			continue
@@ -169,8 +172,12 @@ func (x *Exec) extraChecks(plan *Plan, only *regexp.Regexp) {
 
 func logKey(c *Contract) string {
 	t := c.Target
-	if i := strings.LastIndexAny(t, ")/"); i >= 0 && strings.HasPrefix(t, "(") {
-		// (recv).Method -> Method qualified by receiver type name
+	pkgName := ""
+	if c.Pkg != "" {
+		pkgName = c.Pkg[strings.LastIndexByte(c.Pkg, '/')+1:]
+	}
+	if strings.HasPrefix(t, "(") {
+		// (recv).Method -> Recv.Method
 		j := strings.IndexByte(t, ')')
 		recv := t[1:j]
 		if k := strings.LastIndexAny(recv, "./"); k >= 0 {
@@ -182,7 +189,98 @@ func logKey(c *Contract) string {
 	if k := strings.LastIndexByte(t, '/'); k >= 0 {
 		t = t[k+1:]
 	}
+	if !strings.Contains(t, ".") && pkgName != "" {
+		t = pkgName + "." + t
+	}
 	return t
+}
+
+// logsMentioned lists the logged callees a contract's postconditions talk about;
+// applying the contract advances those logs by an unknown number of calls.
+func (x *Exec) logsMentioned(c *Contract) []string {
+	seen := map[string]bool{}
+	var out []string
+	var walk func(e Expr)
+	walk = func(e Expr) {
+		switch v := e.(type) {
+		case *ECall:
+			switch v.Fun {
+			case "calls", "arg", "argc", "ret", "panicked":
+				if len(v.Args) > 0 {
+					if n := exprName(v.Args[0]); n != "" {
+						if lc := x.loggedContract(n); lc != nil {
+							k := logKey(lc)
+							if !seen[k] {
+								seen[k] = true
+								out = append(out, k)
+							}
+						}
+					}
+				}
+			}
+			for _, a := range v.Args {
+				walk(a)
+			}
+		case *EUnary:
+			walk(v.X)
+		case *EBinary:
+			walk(v.X)
+			walk(v.Y)
+		case *ECond:
+			walk(v.C)
+			walk(v.A)
+			walk(v.B)
+		case *EIndex:
+			walk(v.X)
+			walk(v.I)
+		case *ESlice:
+			walk(v.X)
+			if v.Lo != nil {
+				walk(v.Lo)
+			}
+			if v.Hi != nil {
+				walk(v.Hi)
+			}
+		case *ESel:
+			walk(v.X)
+		case *EAssert:
+			walk(v.X)
+		case *ESet:
+			for _, a := range v.Elems {
+				walk(a)
+			}
+		}
+	}
+	for _, cl := range c.Ensures {
+		walk(cl.E)
+	}
+	for _, l := range c.Lets {
+		walk(l.E)
+	}
+	return out
+}
+
+// advanceLog havocs a call log keeping its history (entries below the old count).
+func (x *Exec) advanceLog(st *State, key string) {
+	nName := "log." + key + ".n"
+	n, ok := st.ghost[nName]
+	if !ok {
+		n = declConst("log0 "+key+".n", SInt)
+		st.assume(app(SBool, ">=", n, mkInt(0)))
+	}
+	nn := fresh("logn", SInt)
+	st.assume(app(SBool, ">=", nn, n))
+	st.ghost[nName] = nn
+	prefix := "log." + key + "."
+	for _, g := range sortedKeys(st.ghost) {
+		if !strings.HasPrefix(g, prefix) || g == nName {
+			continue
+		}
+		cur := st.ghost[g]
+		nv := fresh("log", cur.Sort)
+		st.assume(T{fmt.Sprintf("(forall ((i Int)) (! (=> (< i %s) (= (select %s i) (select %s i))) :pattern ((select %s i))))", n.S, nv.S, cur.S, nv.S), SBool})
+		st.ghost[g] = nv
+	}
 }
 
 func (x *Exec) logCall(st *State, c *Contract, name string, args []Val, res []Val, panicked bool) {
@@ -230,7 +328,7 @@ func (x *Exec) loggedContract(name string) *Contract {
 			return
 		}
 		k := logKey(c)
-		if k == name || strings.HasSuffix(k, "."+name) {
+		if k == name || strings.HasSuffix(k, "."+name) || strings.HasSuffix(k, "."+name[strings.LastIndexByte(name, '.')+1:]) && strings.HasPrefix(k, name[:strings.LastIndexByte(name, '.')+1]) {
 			if found != nil && found != c && logKey(found) != k {
 				sfail("ambiguous logged callee %q", name)
 			}
@@ -396,3 +494,127 @@ func (x *Exec) contractSignature(c *Contract) (*types.Signature, types.Type) {
 func (x *Exec) lockExpr(c *EvalCtx, v *ECall) SV { sfail("lock state not implemented"); return SV{} }
 
 var _ ssa.Value
+
+// Immutable fields (declared `immutable T.f` in a contract file): a whole-module
+// scan shows that the field is only written while its object is being
+// constructed (stores into a freshly allocated object of the same function);
+// calls with unknown effects then keep the field's heap.
+func (x *Exec) ensureImmutableHeaps() {
+	if x.immutableHeaps != nil {
+		return
+	}
+	x.immutableHeaps = map[string]bool{}
+	x.immutableViolations = map[string]string{}
+	type fld struct {
+		st   types.Type
+		path string
+	}
+	want := map[string]fld{}
+	for key := range x.immutableFields {
+		// key = pkgpath.T.f
+		i := strings.LastIndexByte(key, '.')
+		j := strings.LastIndexByte(key[:i], '.')
+		pkg := x.typesPkg(key[:j])
+		if pkg == nil {
+			x.immutableViolations[key] = "unknown package"
+			continue
+		}
+		tn, ok := pkg.Scope().Lookup(key[j+1 : i]).(*types.TypeName)
+		if !ok || !isStruct(tn.Type()) {
+			x.immutableViolations[key] = "unknown struct type"
+			continue
+		}
+		want[key] = fld{tn.Type(), key[i+1:]}
+	}
+	// scan all in-tree functions
+	var visit func(f *ssa.Function)
+	seen := map[*ssa.Function]bool{}
+	visit = func(f *ssa.Function) {
+		if f == nil || seen[f] {
+			return
+		}
+		seen[f] = true
+		for _, b := range f.Blocks {
+			for _, ins := range b.Instrs {
+				st, ok := ins.(*ssa.Store)
+				if !ok {
+					continue
+				}
+				// walk the address to its root, collecting the field path
+				var names []string
+				addr := st.Addr
+				var rootT types.Type
+				var root ssa.Value
+				for {
+					fa, ok := addr.(*ssa.FieldAddr)
+					if !ok {
+						break
+					}
+					stt := deref(fa.X.Type())
+					names = append([]string{stt.Underlying().(*types.Struct).Field(fa.Field).Name()}, names...)
+					rootT = stt
+					root = fa.X
+					addr = fa.X
+				}
+				for key, w := range want {
+					hit := false
+					if rootT != nil && types.Identical(rootT, w.st) && len(names) > 0 && names[0] == w.path {
+						hit = true
+					}
+					// whole-object store *p = T{...}
+					if rootT == nil && types.Identical(deref(st.Addr.Type()), w.st) {
+						hit = true
+						root = st.Addr
+					}
+					if !hit {
+						continue
+					}
+					if a, ok := root.(*ssa.Alloc); ok && a.Parent() == f {
+						continue // initialisation of an object created here
+					}
+					x.immutableViolations[key] = "written in " + f.String() + " at " + x.pos(st.Pos())
+				}
+			}
+		}
+		for _, a := range f.AnonFuncs {
+			visit(a)
+		}
+	}
+	for _, p := range x.prog.AllPackages() {
+		if !strings.HasPrefix(p.Pkg.Path(), modulePath) {
+			continue
+		}
+		for _, m := range p.Members {
+			switch v := m.(type) {
+			case *ssa.Function:
+				visit(v)
+			case *ssa.Type:
+				for _, t := range []types.Type{v.Type(), types.NewPointer(v.Type())} {
+					ms := x.prog.MethodSets.MethodSet(t)
+					for i := 0; i < ms.Len(); i++ {
+						visit(x.prog.MethodValue(ms.At(i)))
+					}
+				}
+			}
+		}
+	}
+	for key, w := range want {
+		if _, bad := x.immutableViolations[key]; bad {
+			continue
+		}
+		for _, l := range structLeaves(w.st) {
+			if l.names[0] == w.path {
+				x.immutableHeaps[fieldHeapName(w.st, l.name())] = true
+			}
+		}
+	}
+}
+
+func (x *Exec) immutableFieldChecks() {
+	x.ensureImmutableHeaps()
+	for _, key := range sortedKeys(x.immutableFields) {
+		why, bad := x.immutableViolations[key]
+		short := strings.TrimPrefix(key, modulePath+"/")
+		x.checks = append(x.checks, &Check{Name: "immutable-field/" + short, Goal: mkBool(!bad), At: nil, Fn: "immutable " + short, Detail: "field is only written while its object is constructed; " + why})
+	}
+}
